@@ -135,11 +135,21 @@ def _cells_of(case):
 
 def _enc_result(nodes, i, v):
     if nodes[i][0] == 'X':
-        return core.enc(v) if not isinstance(v, tuple) else core.enc(v)
+        return core.enc(v)
     return c01.enc_result(nodes, i, v)
 
 
-def _run_ops(comp, nodes, ops):
+def _neg_zero(v):
+    """the protocol carries numbers as exact fractions, which have no -0: the implementation-only oracle marks it"""
+    import math
+    if isinstance(v, float) and v == 0 and math.copysign(1.0, v) < 0:
+        return '[-0]'
+    if isinstance(v, tuple):
+        return ''.join(_neg_zero(x) for x in v)
+    return ''
+
+
+def _run_ops(comp, nodes, ops, strict=False):
     out = []
     for op in ops:
         if op[0] == 'S':
@@ -152,7 +162,8 @@ def _run_ops(comp, nodes, ops):
                 out.append(core.canon_exc(exc))
         else:
             try:
-                out.append(_enc_result(nodes, op[1], comp.evaluate(nodes[op[1]][1])))
+                v = comp.evaluate(nodes[op[1]][1])
+                out.append(_enc_result(nodes, op[1], v) + (_neg_zero(v) if strict else ''))
             except Exception as exc:   # noqa
                 out.append(core.canon_exc(exc))
     return out
@@ -195,9 +206,10 @@ def load_and_run(job):
     res['hash'] = loaded._excel_file_md5_digest
     res['hash_matches'] = bool(loaded.hash_matches)
     res['extra'] = {k: v for k, v in _jsonable(dict(loaded.extra_data or {})).items() if k not in RESERVED}
-    res['saved'] = _run_ops(loaded, nodes, [['E', i] for i in job['saved']])
+    res['saved'] = _run_ops(loaded, nodes, [['E', i] for i in job['saved']], strict=True)
     loaded.to_file(job['resave'])          # before the history: "saving a loaded model reproduces the same content"
-    res['ops'] = _run_ops(loaded, nodes, job['ops'])
+    res['ops_strict'] = _run_ops(loaded, nodes, job['ops'], strict=True)
+    res['ops'] = [t.replace('[-0]', '') for t in res['ops_strict']]
     return res
 
 
@@ -311,10 +323,10 @@ def _impl(case, key, tmp):
         return res['exc']
     fmap2, _ = _file_map(resave)
     # the original under the same history
-    info['orig_saved'] = _run_ops(comp, nodes, [['E', i] for i in saved])
-    info['orig_ops'] = _run_ops(comp, nodes, case['ops'])
+    info['orig_saved'] = _run_ops(comp, nodes, [['E', i] for i in saved], strict=True)
+    info['orig_ops'] = _run_ops(comp, nodes, case['ops'], strict=True)
     info['loaded_saved'] = res['saved']
-    info['loaded_ops'] = res['ops']
+    info['loaded_ops'] = res['ops_strict']
     info['saved'] = saved
     carried = {
         'cycles': (res['cycles'], _jsonable(comp.cycles) if comp.cycles else False),
